@@ -323,14 +323,31 @@ def record_big_episode(m, task):
     rng = np.random.RandomState((seed * 13 + 5) % (2 ** 31))
     ep.start(bool(rng.rand() < 0.5))
     o = ep.obj
-    fresh = Base(ep.bases[0].copy(), task["alt"])
-    fresh.integrate(ep.inc)
-    ov = fresh.trajectory.values
-    oi = np.asarray(fresh.trajectory.index, dtype=float)
     ops = []
     exc = ""
+    # an early overwrite of the state (new altitude, non-zero VD): everything after it must be what a fresh integrator started
+    # from that state gives - also across the capacity boundary thousands of rows later
+    pre = int(rng.choice([0, 3, 40])) if task.get("setpva", True) else 0
+    head = None
+    if pre:
+        o.integrate(ep.inc.iloc[:pre])
+        head = o.trajectory.iloc[:pre].copy()
+        p = ep.new_pva(ep.times[pre], bool(rng.rand() < 0.5), allow_perm=False)
+        o.set_pva(p)
+        fresh = Base(p.copy(), task["alt"])
+        fresh.integrate(ep.inc.iloc[pre:])
+        ov = np.vstack([head.values, fresh.trajectory.values])
+        oi = np.hstack([np.asarray(head.index, dtype=float), np.asarray(fresh.trajectory.index, dtype=float)])
+        ops.append(dict(op="I", k=pre, n=pre + 1, cap=int(len(o.lla)), ret_ok=True, rows_ok=True, index_ok=True))
+        ops.append(dict(op="S", k=0, n=pre + 1, cap=int(len(o.lla)), ret_ok=True,
+                        rows_ok=bool(o.trajectory.values.tobytes() == ov[:pre + 1].tobytes()), index_ok=True))
+    else:
+        fresh = Base(ep.bases[0].copy(), task["alt"])
+        fresh.integrate(ep.inc)
+        ov = fresh.trajectory.values
+        oi = np.asarray(fresh.trajectory.index, dtype=float)
     first = cap0 - int(rng.choice([1, 2, 3, 4, 7]))        # rows after the first chunk: just below the boundary
-    plan = [("I", first - 1)]
+    plan = [("I", first - 1 - pre)]
     while True:
         u = rng.rand()
         plan.append(("I", int(rng.choice([0, 1, 1, 2, 3]))) if u < 0.5 else (("P",) if u < 0.8 else ("G",)))
